@@ -18,7 +18,7 @@ import (
 )
 
 type sdbOp struct {
-	Op string `json:"op"` // nonce bal state suicide create snap revert finalise root commit
+	Op string `json:"op"` // nonce bal state suicide create snap revert finalise root commit, and finalise0 root0 commit0 (deleteEmptyObjects = false)
 	A  int    `json:"a"`
 	K  int    `json:"k,omitempty"`
 	V  int64  `json:"v,omitempty"`
@@ -32,8 +32,54 @@ func genSdbCase(r *Rng, i int) *sdbCase {
 	c := &sdbCase{}
 	n := 8 + r.Intn(40)
 	valid := 0
+	// one StateDB object (from open to the commit that reopens it) settles with one deleteEmptyObjects
+	// flag, as a chain does: false for genesis and pre-EIP-158 callers (empty accounts are kept and
+	// written), true otherwise; the flag may change from one lifetime to the next
+	keep := r.Chance(1, 4)
+	settle := func(op string) string {
+		if keep {
+			return op + "0"
+		}
+		return op
+	}
 	for j := 0; j < n; j++ {
 		a := r.Intn(3)
+		if r.Chance(1, 12) {
+			// one slot through every combination of committed value (none, some), pending write before
+			// a snapshot (none, clear, other value), writes after the snapshot, and a revert to it:
+			// what the journal puts back must be what was visible at the snapshot, pending clears included
+			k := r.Intn(3)
+			if r.Bool() {
+				o := []string{"finalise", "root", "commit"}[r.Intn(3)]
+				c.Ops = append(c.Ops, sdbOp{Op: "state", A: a, K: k, V: int64(1 + r.Intn(2))}, sdbOp{Op: settle(o)})
+				if o == "commit" {
+					keep = r.Chance(1, 4)
+				}
+				valid = 0
+			}
+			switch r.Intn(3) {
+			case 0:
+				c.Ops = append(c.Ops, sdbOp{Op: "state", A: a, K: k, V: 0})
+			case 1:
+				c.Ops = append(c.Ops, sdbOp{Op: "state", A: a, K: k, V: int64(1 + r.Intn(2))})
+			}
+			c.Ops = append(c.Ops, sdbOp{Op: "snap"})
+			valid++
+			for w := 1 + r.Intn(2); w > 0; w-- {
+				c.Ops = append(c.Ops, sdbOp{Op: "state", A: a, K: k, V: int64(r.Intn(3))})
+			}
+			c.Ops = append(c.Ops, sdbOp{Op: "revert", ID: valid - 1})
+			valid--
+			if r.Bool() {
+				o := []string{"finalise", "root", "commit"}[r.Intn(3)]
+				c.Ops = append(c.Ops, sdbOp{Op: settle(o)})
+				if o == "commit" {
+					keep = r.Chance(1, 4)
+				}
+				valid = 0
+			}
+			continue
+		}
 		switch x := r.Intn(40); {
 		case x < 6:
 			c.Ops = append(c.Ops, sdbOp{Op: "nonce", A: a, V: int64(r.Intn(3))})
@@ -56,17 +102,18 @@ func genSdbCase(r *Rng, i int) *sdbCase {
 				valid = id
 			}
 		case x < 35:
-			c.Ops = append(c.Ops, sdbOp{Op: "finalise"})
+			c.Ops = append(c.Ops, sdbOp{Op: settle("finalise")})
 			valid = 0
 		case x < 38:
-			c.Ops = append(c.Ops, sdbOp{Op: "root"})
+			c.Ops = append(c.Ops, sdbOp{Op: settle("root")})
 			valid = 0
 		default:
-			c.Ops = append(c.Ops, sdbOp{Op: "commit"})
+			c.Ops = append(c.Ops, sdbOp{Op: settle("commit")})
+			keep = r.Chance(1, 4)
 			valid = 0
 		}
 	}
-	c.Ops = append(c.Ops, sdbOp{Op: "commit"})
+	c.Ops = append(c.Ops, sdbOp{Op: settle("commit")})
 	return c
 }
 
@@ -165,27 +212,40 @@ func runSdbCase(idx int, c *sdbCase) (string, []MonitorHit, map[string]int, bool
 				ref("sdb-finalise", 0, nil)
 				snaps = nil
 				code = sxL("7")
-			case "root":
-				root := sdb.IntermediateRoot(true)
-				rroot := ref("sdb-root", 0, nil)
+			case "finalise0":
+				sdb.Finalise(false)
+				ref("sdb-finalise0", 0, nil)
+				snaps = nil
+				code = sxL("a")
+			case "root", "root0":
+				root := sdb.IntermediateRoot(op.Op == "root")
+				rroot := ref("sdb-"+op.Op, 0, nil)
 				if hexs(root[:]) != rroot {
 					hit("statedb-differs-from-reference op=root", fmt.Sprintf("%x vs %s", root, rroot))
 				}
 				snaps = nil
 				code = sxL("7")
+				if op.Op == "root0" {
+					code = sxL("a")
+				}
 				_, ck := reads()
 				if old, ok := rootOf[ck]; ok && old != hexs(root[:]) {
 					hit("state-root-depends-on-history", fmt.Sprintf("content %s has roots %s and %x", ck, old, root))
 				}
 				rootOf[ck] = hexs(root[:])
-			case "commit":
-				sdb.IntermediateRoot(true) // finalises: from here on a reader's view must survive commit and reopen
+			case "commit", "commit0":
+				del := op.Op == "commit"
+				sdb.IntermediateRoot(del) // finalises: from here on a reader's view must survive commit and reopen
 				_, before := reads()
-				root, err := sdb.Commit(true)
+				root, err := sdb.Commit(del)
 				if err != nil {
 					hit("statedb-commit-error", err.Error())
 				}
-				rroot := ref("sdb-commit", 0, nil)
+				rcmd := "sdb-commit"
+				if !del {
+					rcmd = "sdb-commit0"
+				}
+				rroot := ref(rcmd, 0, nil)
 				if hexs(root[:]) != rroot {
 					hit("statedb-differs-from-reference op=commit", fmt.Sprintf("%x vs %s", root, rroot))
 				}
@@ -198,6 +258,9 @@ func runSdbCase(idx int, c *sdbCase) (string, []MonitorHit, map[string]int, bool
 				sdb = nsdb
 				snaps = nil
 				code = sxL("8")
+				if !del {
+					code = sxL("b")
+				}
 				_, after := reads()
 				if old, ok := rootOf[after]; ok && old != hexs(root[:]) {
 					hit("state-root-depends-on-history", fmt.Sprintf("content %s has roots %s and %x", after, old, root))
@@ -226,7 +289,7 @@ func runSdbCase(idx int, c *sdbCase) (string, []MonitorHit, map[string]int, bool
 func init() {
 	engines["statedb"] = func(args []string) error {
 		return runGenericEngine("statedb",
-			"case = 8..48 operations on one in-tree StateDB over three accounts and three storage slots each: SetNonce, AddBalance (zero amounts included: touch), SetState with values 0/1/2 (set, clear, set again), Suicide, CreateAccount, Snapshot, RevertToSnapshot to any valid snapshot (nested), Finalise(true), IntermediateRoot(true), Commit followed by reopening at the committed root with fresh caches; the same history runs on the reference go-ethereum v1.8.27 StateDB (snapshot ids and every root compared); after every operation existence, nonce, balance and all nine slots are read and compared with the model; monitors: equal visible content must give equal roots within a case, reopen must not fail; distinct = case line; non-trivial = at least four writes",
+			"case = 8..48 operations on one in-tree StateDB over three accounts and three storage slots each: SetNonce, AddBalance (zero amounts included: touch), SetState with values 0/1/2 (set, clear, set again), Suicide, CreateAccount, Snapshot, RevertToSnapshot to any valid snapshot (nested), Finalise(true), IntermediateRoot(true), Commit followed by reopening at the committed root with fresh caches; the same history runs on the reference go-ethereum v1.8.27 StateDB (snapshot ids and every root compared); after every operation existence, nonce, balance and all nine slots are read and compared with the model; monitors: equal visible content must give equal roots within a case, reopen must not fail; distinct = case line; non-trivial = at least four writes; one operation in twelve is a directed journal sequence on one slot (optionally a committed value, optionally a pending clear or write, a snapshot, one or two writes, the revert to that snapshot, optionally a settle); every lifetime of the StateDB object (from open to the commit that reopens it) settles with one deleteEmptyObjects flag - true, or in a quarter of the lifetimes false, where empty accounts are kept and written to the trie - so that later lifetimes meet committed empty accounts",
 			args,
 			func(r *Rng, i int) interface{} { return genSdbCase(r, i) },
 			func(f string) (interface{}, error) {
